@@ -375,6 +375,34 @@ class World:
         with cell_ctx(cell):
             return self._call(f, prior, training)
 
+    def ovc_signature(self, fm3, b, p1, p2):
+        """Is a divergence of a *variational* fantasy model exactly the known OVC inconsistency (known_findings:
+        `stale-fantasy:*svgp:*`)?  The ExactGP returned by ApproximateGP.get_fantasy_model carries a `covar_cache` built
+        from K_ZZ + pseudo-observation covariance while its mean cache and its non-fast covariance path use K + sigma^2 I.
+        Signature, on a third fantasy model: a strategy rebuild (train(); eval()) leaves mean and default-path covariance
+        bitwise unchanged, changes the covariance under the cell `b` (which reads covar_cache), after the rebuild the
+        fast_pred_var covariance equals the default-path covariance to 1e-10, and the two diverging answers are exactly
+        the before / after values.  Anything else is not attributed."""
+        import torch
+
+        def call(c):
+            with cell_ctx(c):
+                o = fm3(self.xt)
+                return o.mean.detach().clone(), o.covariance_matrix.detach().clone()
+        try:
+            r0, b0 = call(0), call(b)
+            fm3.train()
+            fm3.eval()          # the strategy is rebuilt from the model's own attributes
+            r1, b1, f1 = call(0), call(b), call(FPV)
+            return bool(b & FPV and not b & SKIP
+                        and torch.equal(r0[0], r1[0]) and torch.equal(r0[1], r1[1])
+                        and reldiff(b0[1], b1[1]) > TOL and reldiff(b0[0], b1[0]) <= 1e-12
+                        and float((f1[1] - r1[1]).abs().max()) <= 1e-10
+                        and max(reldiff(p2[0], b0[0]), reldiff(p2[1], b0[1])) <= 1e-12
+                        and max(reldiff(p1[0], b1[0]), reldiff(p1[1], b1[1])) <= 1e-12)
+        except Exception:
+            return False
+
     # -------- operations
     def apply(self, op):
         """-> dict(token=<driver token>, status, pred=(mean, cov)|None, cell, prior)"""
@@ -473,6 +501,8 @@ class World:
                         with cell_ctx(b):
                             p2 = self._take(fm2(self.xt))
                         fr["diff"] = max(reldiff(p1[0], p2[0]), reldiff(p1[1], p2[1]))
+                        if not fr["diff"] <= TOL and not self.exact:
+                            fr["ovc_signature"] = self.ovc_signature(m.get_fantasy_model(fx, fy, **fkw), b, p1, p2)
                     except Exception as e:
                         fr["error"] = type(e).__name__ + ":" + str(e)[:120]
                     r["fantasy"] = fr
@@ -650,7 +680,7 @@ def run_many(jobs):
     if not jobs:
         return []
     nproc = n_workers()
-    if os.environ.get("VERIF_C03_SERIAL", "0") == "1" or len(jobs) <= 1500:
+    if os.environ.get("VERIF_C03_SERIAL", "0") == "1" or len(jobs) <= 700:
         nproc = 1     # a worker costs ~10 s of imports; a history ~50 ms
     chunks = [list(range(p, len(jobs), nproc)) for p in range(nproc)]
     payload = [(C.REPO, C.VERIF, [jobs[i] for i in ch]) for ch in chunks]
@@ -875,6 +905,16 @@ def shrink(kind, tokens, seed, idx, training_div, budget=60):
             tries += 1
             if diverges(cand):
                 cur = cand
+                continue
+        if t[0] in "PC" and bin(cell_mask(t)).count("1") > 1:
+            # a cell of several settings: drop the settings the divergence does not need
+            for bit in range(len(SETTING_BITS)):
+                m = cell_mask(cur[i])
+                if m >> bit & 1 and m != 1 << bit and tries < budget + 45:
+                    cand = cur[:i] + [cell_token(m & ~(1 << bit))] + cur[i + 1:]
+                    tries += 1
+                    if diverges(cand):
+                        cur = cand
         elif t in ("D1", "D2", "L1", "L2") and tries < budget + 30:
             cand = cur[:i] + [t[0]] + cur[i + 1:]
             tries += 1
@@ -997,7 +1037,8 @@ def check_job(ctx, kind, tokens, seed, recs, stats):
             if bad and len(ctx.failures) < 40:
                 pat = f"predict[{cell_name(f['a'])}]>predict[{cell_name(f['b'])}]"
                 what = f["error"] if f["error"] is not None else f"differs by {f['diff']:.3g} (relative; tolerance {TOL:g})"
-                ctx.fail(f"stale-fantasy:{kind}:{pat}",
+                # `stale-fantasy:` only for the exactly attributed OVC inconsistency of variational fantasy models
+                ctx.fail(f"{'stale-fantasy' if f.get('ovc_signature') else 'fantasy-history'}:{kind}:{pat}",
                          f"{kind} model, history `{pattern(tokens[:n + 1])}`: the model returned by get_fantasy_model, called as `{pat}`, "
                          f"vs a second fantasy model made from the same source called under the second cell only: {what}",
                          {"kind": kind, "seed": seed, "ops": tokens[:n + 1], "fantasy_pair": [f["a"], f["b"]], "what": what})
